@@ -99,7 +99,8 @@ pub fn convert(map: &mut Beatmap) {
                             .collect();
 
                         format!(
-                            r#"{{"g":"taiko_burst","idx":{idx},"times":[{}]}}"#,
+                            r#"{{"g":"taiko_burst","idx":{idx},"tick_spacing":{:?},"times":[{}]}}"#,
+                            params.tick_spacing,
                             times.join(",")
                         )
                     });
